@@ -63,6 +63,7 @@ type ioObj struct {
 	last   string
 	keep   []any
 	rearm  bool // next cancellation callback re-issues the operation
+	ops    int  // completions delivered on this object
 	eof    bool // the peer half-closed, closed or reset: reads terminate
 }
 
@@ -350,6 +351,7 @@ func (d *ioDriver) complete(op *ioOp, err error, n int) {
 		d.fail(fmt.Sprintf("%s.%s/callback-after-close", o.kind, op.kind), "%s: callback of %s#%d (err=%v) invoked after Close returned", o.name, op.kind, op.id, err)
 	}
 	op.done, op.err, op.n = true, err, n
+	o.ops++
 	switch op.kind {
 	case "read", "readfrom", "accept":
 		if o.rd == op {
@@ -788,6 +790,17 @@ func (d *ioDriver) actions() []ioAction {
 			case o.kind == "reg":
 				if o.rd == nil {
 					add("read-deferred("+o.name+")", func() { d.start(o, "read", 1, 0) })
+					// epoll refuses a regular file: the deferred read has completed with that error, nothing is in
+					// flight, and a Cancel now has nothing to complete (a callback run again is caught in complete)
+					if o.ops > 0 {
+						add("cancel-with-nothing-in-flight("+o.name+")", func() {
+							before := d.handlers
+							o.fdo.Cancel()
+							if d.handlers != before {
+								d.fail("reg.cancel/callback-without-operation", "%s: Cancel with nothing in flight ran %d callbacks", o.name, d.handlers-before)
+							}
+						})
+					}
 				}
 			case o.pkt != nil:
 				if o.rd == nil {
@@ -923,6 +936,16 @@ func (d *ioDriver) actions() []ioAction {
 				o.settleRead()
 			})
 		}
+	}
+	hasReg := false
+	for _, o := range d.objs {
+		if o.kind == "reg" {
+			hasReg = true
+		}
+	}
+	// (C01 has the regular file as a scenario of its own, see c01DFS: a third object in every pair would multiply the search)
+	if d.c03 && !hasReg && len(d.objs) < 3 {
+		add("open-regular-file", func() { d.newObj("reg", "R") })
 	}
 	add("poll", func() { d.pollAction() })
 	if d.c03 {
